@@ -1,13 +1,114 @@
 import GeoVerif.Corr.Proto
 import GeoVerif.Model.Clenshaw
 import GeoVerif.Model.GeodLengths
-/-! Correspondence for C01: documented output ranges, decided on every sampled result -/
+import GeoVerif.Model.GeodLine
+import GeoVerif.Model.MathF
+import GeoVerif.FP.RunErr
+/-! Correspondence for C01: documented output ranges, decided on every sampled result; the series solver itself
+(`Geodesic` constants, `GeodesicLine::LineInit`, `GeodesicLine::GenPosition`) against `Model/GeodLine.lean` -/
 namespace GeoVerif.Corr.C01
 open GeoVerif GeoVerif.Proto
+
+/-! ### the series solver against its model
+
+The model is evaluated once, in the running-error arithmetic `RE` (`FP/RunErr.lean`): the value component is the
+binary64 evaluation of the model (same operations, same order, same libm as the implementation), the error component
+is the first-order bound of the rounding error of *that evaluation* on *these inputs*.  A member / output of the
+implementation agrees with the model when it differs by at most `K·e`, `K = 4`: both are evaluations of the same real
+expression (factor 2), and an equivalent re-association or a differently rounded `hypot` changes the bound by a modest
+factor (factor 2).  Pass-through values have `e = 0` and must be equal.  Angles that are directions (`azi2`, the
+normalised `lon2`) are compared modulo 360°. -/
+
+def pfl (s : String) : Option Float := if s.length != 16 then none else (hexToNat s).map fun n => Float.ofBits n.toUInt64
+
+def safety : Float := 4
+
+/-- `none` = agrees; `some msg` = differs by more than `K·e` -/
+def cmp (name : String) (ang : Bool) (impl : Float) (m : RE) : Option String :=
+  let d := Float.abs (impl - m.v)
+  let d := if ang && d > 180 then Float.abs (360 - d) else d
+  if (impl.isNaN && m.v.isNaN) || impl == m.v || d ≤ safety * m.e || (m.e.isNaN && !m.v.isNaN && !impl.isNaN) then none
+  else some s!"{name}: impl={impl} model={m.v} diff={d} bound={m.e}"
+
+def cmpAll (xs : List (String × Float × RE)) : List String := xs.filterMap fun (n, i, m) => cmp n false i m
+
+def takeN (n : Nat) (l : List Float) : Option (List Float × List Float) := if l.length < n then none else some (l.take n, l.drop n)
+
+open GeodLine GeodLengths in
+/-- the members of a `GeodesicLine` as emitted by `gline::members` -/
+def lineOf (l : List Float) : Option (Line RE × List Float) := do
+  let (h, r) ← takeN 26 l
+  let (c1, r) ← takeN nN r
+  let (c1p, r) ← takeN nN r
+  let (c2, r) ← takeN nN r
+  let (c3, r) ← takeN (nN - 1) r
+  let (c4, r) ← takeN nN r
+  let g (i : Nat) := RE.exact (h.getD i 0)
+  let ex (l : List Float) := l.map RE.exact
+  some (⟨g 0, g 1, g 2, g 3, g 4, g 5, g 6, g 7, g 8, g 9, g 10, g 11, g 12, g 13, g 14, g 15, g 16, g 17, g 18, g 19, g 20, g 21, g 22,
+         g 23, g 24, g 25, ex c1, ex c1p, ex c2, ex c3, ex c4⟩, r)
+
+open GeodLine in
+def lineFields (L : Line RE) : List (String × RE) :=
+  let arr (n : String) (l : List RE) := (List.range l.length).map fun i => (s!"{n}[{i}]", l.getD i (RE.exact 0))
+  [("_f", L.f), ("_f1", L.f1), ("_b", L.b), ("_c2", L.c2), ("tiny_", L.tiny), ("_lon1", L.lon1), ("_salp1", L.salp1), ("_calp1", L.calp1),
+   ("_dn1", L.dn1), ("_salp0", L.salp0), ("_calp0", L.calp0), ("_ssig1", L.ssig1), ("_csig1", L.csig1), ("_somg1", L.somg1),
+   ("_comg1", L.comg1), ("_k2", L.k2), ("_A1m1", L.A1m1), ("_B11", L.B11), ("_stau1", L.stau1), ("_ctau1", L.ctau1),
+   ("_A2m1", L.A2m1), ("_B21", L.B21), ("_A3c", L.A3c), ("_B31", L.B31), ("_A4", L.A4), ("_B41", L.B41)]
+  ++ arr "_C1a" L.C1a ++ arr "_C1pa" L.C1pa ++ arr "_C2a" L.C2a ++ arr "_C3a" L.C3a ++ arr "_C4a" L.C4a
+
+def verdictOf (what : String) (bads : List String) : Verdict :=
+  if bads.isEmpty then .ok else .bad s!"{what} differs from Model/GeodLine: {bads}"
+
+open GeodLine in
+def handleLine (op : String) (args res : List String) : Option Verdict :=
+  match op with
+  | "geodconst" => some <|
+    if res == ["!E"] then .skip "constructor rejects the ellipsoid" else
+    match args.mapM pfl, res.mapM pfl with
+    | some [a, f], some (tiny :: eps0 :: impl) =>
+      let g := geodesic (RE.exact a) (RE.exact f) (RE.exact tiny) (RE.exact eps0)
+      let m := [("_f1", g.f1), ("_e2", g.e2), ("_ep2", g.ep2), ("_n", g.n), ("_b", g.b), ("_c2", g.c2), ("_etol2", g.etol2)]
+        ++ (g.A3x.map fun x => ("_aA3x", x)) ++ (g.C3x.map fun x => ("_cC3x", x)) ++ (g.C4x.map fun x => ("_cC4x", x))
+      if m.length != impl.length then .bad s!"Geodesic constants: {impl.length} values emitted, the model has {m.length}"
+      else verdictOf "Geodesic::Geodesic" (cmpAll ((m.zip impl).map fun ((n, r), i) => (n, i, r)))
+    | _, _ => .bad "parse"
+  | "lineinit" => some <|
+    match args.mapM pfl, res.mapM pfl with
+    | some [a, f, _lat1, lon1, _azi1], some (tiny :: eps0 :: sb :: cb :: sa :: ca :: impl) =>
+      let g := geodesic (RE.exact a) (RE.exact f) (RE.exact tiny) (RE.exact eps0)
+      let (L, _) := lineInit g (RE.exact lon1) (RE.exact sb) (RE.exact cb) (RE.exact sa) (RE.exact ca)
+      let m := lineFields L
+      if m.length != impl.length then .bad s!"LineInit: {impl.length} members emitted, the model has {m.length}"
+      else verdictOf "GeodesicLine::LineInit" (cmpAll ((m.zip impl).map fun ((n, r), i) => (n, i, r)))
+    | _, _ => .bad "parse"
+  | "genpos" => some <|
+    match args.take 5 |>.mapM pfl, args.drop 5, res.mapM pfl with
+    | some [_a, _f, _lat1, lon1, _azi1], [arc, lenS, un], some impl =>
+      match lineOf impl, pfl lenS with
+      | some (L, [sk, ck, a12, lat2, lon2, azi2, s12, m12, M12, M21, S12]), some len =>
+        let arcmode := arc == "1"
+        let unroll := un == "1"
+        let p := genPosition L arcmode (RE.exact len) (RE.exact sk) (RE.exact ck) unroll
+        -- without LONG_UNROLL: AngNormalize(AngNormalize(lon1) + AngNormalize(lon12)), exact reductions (model of C16) and one rounding
+        let lonM : RE :=
+          if unroll then p.lon2u else
+            let x := F64.toFloat (MathF.angNormalize (MathF.angNormalize (F64.ofFloat lon1) + MathF.angNormalize (F64.ofFloat p.lon12.v)))
+            ⟨x, p.lon12.e + RE.u * x.abs⟩
+        let bads := [cmp "a12" false a12 p.a12, cmp "lat2" false lat2 p.lat2, cmp "lon2" (!unroll) lon2 lonM, cmp "azi2" true azi2 p.azi2,
+                     cmp "s12" false s12 p.s12, cmp "m12" false m12 p.m12, cmp "M12" false M12 p.M12, cmp "M21" false M21 p.M21,
+                     cmp "S12" false S12 p.S12].filterMap id
+        verdictOf "GeodesicLine::GenPosition" bads
+      | _, _ => .bad "parse"
+    | _, _, _ => .bad "parse"
+  | _ => none
 
 def inRange (x : F64) (lo hi : Int) : Bool := x.isNaN || (F64.ge x (F64.ofInt lo) && F64.le x (F64.ofInt hi))
 
 def handle (op : String) (args res : List String) : Option Verdict :=
+  match handleLine op args res with
+  | some v => some v
+  | none =>
   match op with
   | "gdirect" => some <|
     match parseFs res with
